@@ -57,6 +57,22 @@ def cases(ctx):
                     yield {"version": version, "fail19": list(fail19), "fault_class": FAULT_CLASSES[count % len(FAULT_CLASSES)],
                            "steps": PRE + [["rx", line + "\n"] for line in combo]}
     ctx.exhaustive[f"histories-len<={max_len}-x-fault-subsets"] = count
+    # "a request whose write failed does not count as sent" - however often it failed: the first N request writes fail
+    # (N up to 150: retry counters, back-off, give-up thresholds), then the link works again and the next rejected message
+    # must be followed by a request
+    for version in VERSIONS[2:]:
+        for failures in (4, 9, 10, 11, 16, 20, 33, 64, 100, ctx.pick(128, 150)):
+            for who in ("one-node", "two-nodes"):
+                if not ctx.mine():
+                    continue
+                lines = []
+                for i in range(failures + 3):
+                    node = U1 if who == "one-node" or i % 2 == 0 else U2
+                    lines.append(SYMBOLS[0].replace(f"{U1};", f"{node};", 1) if i % 3 else f"{node};255;3;0;0;50")
+                lines += [f"{U1};255;0;0;17;2.0", f"{U1};7;1;0;0;1", f"{U1};7;1;0;0;1"]
+                n_fail = failures if who == "one-node" else 2 * failures
+                yield {"version": version, "fail19": list(range(n_fail)), "fault_class": FAULT_CLASSES[failures % len(FAULT_CLASSES)],
+                       "steps": PRE + [["rx", line + "\n"] for line in lines]}
     # every message kind of the active protocol from an unknown node (all internal / stream / presentation / value type
     # numbers incl. the ones only the newest protocol has and out-of-range ones), twice, then after it presented itself:
     # WHICH kinds are rejected for a missing node is the implementation's business, but every such rejection must ask
